@@ -5,8 +5,8 @@
 (* Abstract SCHEMAS: one global element  b  with an anonymous complex type *)
 (*   sequence( kid1 named a, kid2 named b, kid3 named a )   (<= MaxKids)   *)
 (*   + attribute declarations named a / c                   (<= 2)         *)
-(* a kid declaration is [ty, mn, mx, nil, dv]: type, minOccurs 0/1,        *)
-(* maxOccurs 1/2, nillable, has-a-default-value.  Types:                   *)
+(* a kid declaration is [ty, mn, mx, nil, dv, sg]: type, minOccurs 0/1,    *)
+(* maxOccurs 1/2, nillable, has-a-default-value, ref-to-a-head.  Types:    *)
 (*   builtin atomic   int integer decimal string date boolean              *)
 (*   small  = restriction(xs:int, maxInclusive 10)                         *)
 (*   ilist  = list(xs:int)           u = union(xs:int, xs:string)          *)
@@ -14,6 +14,15 @@
 (*            of type xs:int                                               *)
 (*   grp    = complexType/sequence(element b of xs:boolean, minOccurs 0)   *)
 (*            (one more level: exercises the type stack of apply_schema)   *)
+(*   ud     = union(xs:decimal, xs:string): the FIRST member rejects a     *)
+(*            non-numeric lexical, the later member takes it               *)
+(*   v      = restriction(type of kid 1): a global type whose DEFINITION   *)
+(*            differs from schema to schema under the same name; instances *)
+(*            name it in xsi:type on kid 1                                 *)
+(* A kid declaration with sg = TRUE is  <xs:element ref="a"/>  to a GLOBAL *)
+(* element a (the head of a substitution group) whose only member is the   *)
+(* global element m, typed with a type DERIVED from the head's             *)
+(* (SgMember); an occurrence with mem = TRUE is an <m> element.            *)
 (* XSD constraints on the universe: Element Declarations Consistent (two   *)
 (* particles named a have the same type) and Unique Particle Attribution   *)
 (* (with three kids the middle one is mandatory).                          *)
@@ -32,7 +41,8 @@
 (* attribute"): they are flagged dflt.                                     *)
 (*                                                                         *)
 (* Not modelled (excluded from the vectors): wildcards, substitution       *)
-(* groups, identity constraints, assertions; the type annotation of the    *)
+(* groups beyond the one-head / one-member form above, identity            *)
+(* constraints, assertions; the type annotation of the    *)
 (* xsi:type / xsi:nil attribute nodes themselves; union lexicals with      *)
 (* surrounding white space (XSD 1.0 and 1.1 differ); error CODES.          *)
 (***************************************************************************)
@@ -44,7 +54,8 @@ CONSTANTS KidMenu,    \* set of kid declarations [ty, mn, mx, nil, dv]
           MaxKids,    \* 0..3
           LexCap,     \* at most this many lexical representatives per type (1..4)
           MaxAtts,    \* 0..2
-          XsiOn       \* TRUE: instances may use xsi:type overrides
+          XsiOn,      \* TRUE: instances may use xsi:type overrides
+          VOn         \* TRUE: kid 1 occurrences may carry xsi:type="v" (the schema-dependent type)
 
 ---------------------------------------------------------------------------
 (* Characters and lexical forms *)
@@ -100,8 +111,9 @@ BoolOf(s) == s \in {LTrue, <<"1">>}
 ---------------------------------------------------------------------------
 (* The type hierarchy (XSD part 2 section 3, built-in derivation; part 1 3.4.2 for sc/grp) *)
 AtomicBuiltins == {"short", "int", "long", "integer", "decimal", "string", "date", "boolean"}
-SimpleTypes    == AtomicBuiltins \cup {"small", "ilist", "u"}
-AllTypes       == SimpleTypes \cup {"sc", "grp", "root", "anyAtomicType", "anySimpleType", "anyType"}
+SimpleTypes    == AtomicBuiltins \cup {"small", "ilist", "u", "ud"}
+AllTypes       == SimpleTypes \cup {"sc", "grp", "root", "anyAtomicType", "anySimpleType", "anyType", "v"}
+VBases         == {"int", "integer", "decimal", "string"}       \* what v may restrict
 
 BaseOf(T) == CASE T = "short"   -> "int"
                [] T = "int"     -> "long"
@@ -109,7 +121,7 @@ BaseOf(T) == CASE T = "short"   -> "int"
                [] T = "integer" -> "decimal"
                [] T \in {"decimal", "string", "date", "boolean"} -> "anyAtomicType"
                [] T = "anyAtomicType" -> "anySimpleType"
-               [] T \in {"ilist", "u"} -> "anySimpleType"
+               [] T \in {"ilist", "u", "ud"} -> "anySimpleType"
                [] T = "anySimpleType" -> "anyType"
                [] T = "small"   -> "int"          \* derived by restriction
                [] T = "sc"      -> "decimal"      \* derived by extension (simple content)
@@ -117,7 +129,14 @@ BaseOf(T) == CASE T = "short"   -> "int"
 RECURSIVE Chain(_)                         \* InstanceOfChain: T and all its base types
 Chain(T) == IF T = "anyType" THEN {T} ELSE {T} \cup Chain(BaseOf(T))
 
-HasSimpleValue(T) == T \in SimpleTypes \cup {"sc"}      \* simple or simple-content type
+(* the schema-dependent type v: a restriction (no facet) of the type of kid 1 *)
+VBase(S)      == IF Len(S.kids) >= 1 /\ S.kids[1].ty \in VBases THEN S.kids[1].ty ELSE "string"
+ChainS(S, T)  == IF T = "v" THEN {"v"} \cup Chain(VBase(S)) ELSE Chain(T)
+(* substitution group: the type of the member m for a head of type T (derived from it) *)
+SgHeads == {"decimal", "integer", "int"}
+SgMember(T) == CASE T = "decimal" -> "int" [] T = "integer" -> "int" [] T = "int" -> "small"
+
+HasSimpleValue(T) == T \in SimpleTypes \cup {"sc", "v"}      \* simple or simple-content type
 ContentType(T)    == IF T = "sc" THEN "decimal" ELSE T
 (* the datatype class of a value of type T: the nearest built-in atomic type *)
 AtomClass(T) == IF T = "small" THEN "int" ELSE T
@@ -131,6 +150,7 @@ ValidLex(T, s) ==
     [] T = "date"    -> IsDateLex(c)
     [] T = "boolean" -> IsBoolLex(c)
     [] T = "ilist"   -> \A i \in 1..Len(Toks(s)) : IsIntLex(Toks(s)[i])
+    [] T = "ud"      -> Collapse(s) = s
     [] T = "u"       -> Collapse(s) = s           \* the xs:string member accepts everything; lexicals with
                                                   \* surrounding white space are outside the universe (XSD 1.0
                                                   \* and 1.1 normalise them differently before the member test)
@@ -154,6 +174,10 @@ TypedValue(T, s) ==
     [] T = "boolean" -> <<VBool(BoolOf(c))>>
     [] T = "ilist"   -> [i \in 1..Len(Toks(s)) |-> VInt("int", IntOf(Toks(s)[i]))]
     [] T = "u"       -> IF IsIntLex(s) /\ s # <<>> THEN <<VInt("int", IntOf(s))>> ELSE <<VStr(s)>>
+    [] T = "ud"      -> IF IsDecLex(s) /\ s # <<>> THEN <<VDec(DecOf(s))>> ELSE <<VStr(s)>>   \* first member that accepts
+(* the same for the schema-dependent type *)
+TypedValueS(S, T, s) == IF T = "v" THEN TypedValue(VBase(S), s) ELSE TypedValue(T, s)
+ValidLexS(S, T, s)   == IF T = "v" THEN ValidLex(VBase(S), s) ELSE ValidLex(T, s)
 
 ---------------------------------------------------------------------------
 (* Lexical representatives per type *)
@@ -174,13 +198,14 @@ LexSeq(T) == CASE T = "int"     -> <<L7, Lsp7, Lm3, L12>>
                [] T = "boolean" -> <<LTrue, <<"1">>, LFalse>>
                [] T = "ilist"   -> <<Llist, Llist2, L7>>
                [] T = "u"       -> <<L7, Lx, Lm3>>
+               [] T = "ud"      -> <<Lx, Ldec>>
                [] T = "grp"     -> << <<>> >>
 Lex(T) == {LexSeq(T)[i] : i \in 1..(IF LexCap < Len(LexSeq(T)) THEN LexCap ELSE Len(LexSeq(T)))}
-SecondLex(T) == CASE T \in {"int", "integer", "small", "decimal", "sc", "u", "ilist"} -> L7
+SecondLex(T) == CASE T \in {"int", "integer", "small", "decimal", "sc", "u", "ud", "ilist"} -> L7
                   [] T = "string" -> Lx  [] T = "date" -> Ld1  [] T = "boolean" -> LTrue
                   [] T = "grp" -> <<>>
 (* default value of the declaration at position pos (kid3 differs from kid1 on purpose) *)
-DefaultLex(T, pos) == CASE T \in {"int", "integer", "small", "decimal", "sc", "u", "string"} -> IF pos = 3 THEN L5 ELSE L3
+DefaultLex(T, pos) == CASE T \in {"int", "integer", "small", "decimal", "sc", "u", "ud", "string"} -> IF pos = 3 THEN L5 ELSE L3
                         [] T = "date"    -> IF pos = 3 THEN Ld1 ELSE Ld2
                         [] T = "boolean" -> IF pos = 3 THEN LFalse ELSE LTrue
                         [] T = "ilist"   -> IF pos = 3 THEN Llist2 ELSE Llist
@@ -196,6 +221,8 @@ SchemaOK(ks) ==
   /\ Len(ks) = 3 => /\ ks[1].ty = ks[3].ty          \* Element Declarations Consistent
                     /\ ks[2].mn = 1                  \* Unique Particle Attribution
   /\ \A i \in 1..Len(ks) : ks[i].dv => ks[i].ty # "grp"
+  /\ \A i \in 1..Len(ks) : ks[i].sg =>            \* the minimal substitution group: kid 1 only, no kid 3,
+        i = 1 /\ Len(ks) <= 2 /\ ks[i].ty \in SgHeads /\ ~ks[i].nil /\ ~ks[i].dv   \* plain head
 AttSets == {as \in SUBSET AttrMenu : Cardinality(as) <= MaxAtts
                                      /\ \A x, y \in as : x.nm = y.nm => x = y}
 Schemas == {[kids |-> ks, atts |-> as] : ks \in {k \in KidSeqs : SchemaOK(k)}, as \in AttSets}
@@ -205,26 +232,31 @@ AttNames(S)    == {d.nm : d \in S.atts}
 
 ---------------------------------------------------------------------------
 (* Instances: inst.kids[i] = sequence of occurrences of kid i; inst.atts[nm] = lexical or NoLex *)
-Occ(lx, nil, xt, at, sub) == [lx |-> lx, nil |-> nil, xt |-> xt, at |-> at, sub |-> sub]
+Occ(lx, nil, xt, at, sub) == [lx |-> lx, nil |-> nil, xt |-> xt, at |-> at, sub |-> sub, mem |-> FALSE]
+MemOcc(lx) == [lx |-> lx, nil |-> FALSE, xt |-> "none", at |-> NoLex, sub |-> NoLex, mem |-> TRUE]
 
-OccVariants(d) ==
+OccVariants(d, pos) ==
   (IF d.ty = "grp"
    THEN {Occ(<<>>, FALSE, "none", NoLex, s) : s \in (IF LexCap = 1 THEN {NoLex, LTrue} ELSE {NoLex, LTrue, <<"0">>})}
    ELSE {Occ(l, FALSE, "none", a, NoLex) : l \in Lex(d.ty), a \in (IF d.ty = "sc" THEN {NoLex, L7} ELSE {NoLex})})
   \cup (IF d.nil THEN {Occ(<<>>, TRUE, "none", NoLex, NoLex)} ELSE {})
   \cup (IF d.dv THEN {Occ(<<>>, FALSE, "none", NoLex, NoLex)} ELSE {})
   \cup (IF XsiOn THEN {Occ(l, FALSE, x, NoLex, NoLex) : x \in XsiTypes(d.ty), l \in {L7, Lm3}} ELSE {})
+  \cup (IF VOn /\ pos = 1 /\ d.ty \in VBases /\ ~d.sg THEN {Occ(L7, FALSE, "v", NoLex, NoLex)} ELSE {})
+  \cup (IF d.sg THEN {MemOcc(l) : l \in Lex(SgMember(d.ty))} ELSE {})
 
-OccSeqs(d) ==
+Seconds(d) == {Occ(SecondLex(d.ty), FALSE, "none", NoLex, NoLex)}
+              \cup (IF d.sg THEN {MemOcc(SecondLex(SgMember(d.ty)))} ELSE {})
+OccSeqs(d, pos) ==
   (IF d.mn = 0 THEN {<<>>} ELSE {})
-  \cup {<<o>> : o \in OccVariants(d)}
-  \cup (IF d.mx = 2 THEN {<<o, Occ(SecondLex(d.ty), FALSE, "none", NoLex, NoLex)>> : o \in OccVariants(d)} ELSE {})
+  \cup {<<o>> : o \in OccVariants(d, pos)}
+  \cup (IF d.mx = 2 THEN {<<o, o2>> : o \in OccVariants(d, pos), o2 \in Seconds(d)} ELSE {})
 
 AttChoices(d) == (IF d.use = "req" THEN {} ELSE {NoLex}) \cup Lex(d.ty)
 
 RECURSIVE KidProd(_, _)
 KidProd(S, i) == IF i > Len(S.kids) THEN {<<>>}
-                 ELSE {<<o>> \o r : o \in OccSeqs(S.kids[i]), r \in KidProd(S, i + 1)}
+                 ELSE {<<o>> \o r : o \in OccSeqs(S.kids[i], i), r \in KidProd(S, i + 1)}
 RECURSIVE AttProd(_, _)
 AttProd(S, names) ==
   IF names = {} THEN {<<>>}                     \* <<>> is the function with the empty domain
@@ -234,7 +266,7 @@ Instances(S) == {[kids |-> ko, atts |-> ao] : ko \in KidProd(S, 1), ao \in AttPr
 
 (* effective type and text of an occurrence (XSD part 1, 3.3.4: xsi:type overrides, *)
 (* an empty element with a default takes the default, 3.3.4 clause 5.1)             *)
-EffType(d, o)      == IF o.xt # "none" THEN o.xt ELSE d.ty
+EffType(d, o)      == IF o.xt # "none" THEN o.xt ELSE IF o.mem THEN SgMember(d.ty) ELSE d.ty
 EffText(d, pos, o) == IF o.lx = <<>> /\ d.dv /\ ~o.nil THEN DefaultLex(EffType(d, o), pos) ELSE o.lx
 
 (* validity, stated independently of the generator above *)
@@ -246,8 +278,9 @@ ValidInstance(S, inst) ==
        /\ \A j \in 1..Len(inst.kids[i]) :
             LET o == inst.kids[i][j] IN
             /\ o.nil => d.nil /\ o.lx = <<>> /\ o.sub = NoLex
-            /\ o.xt # "none" => d.ty \in Chain(o.xt) /\ o.xt # d.ty
-            /\ ~o.nil => ValidLex(EffType(d, o), EffText(d, i, o))
+            /\ o.xt # "none" => d.ty \in ChainS(S, o.xt) /\ o.xt # d.ty /\ (o.xt = "v" => i = 1)
+            /\ o.mem => d.sg /\ o.xt = "none" /\ ~o.nil
+            /\ ~o.nil => ValidLexS(S, EffType(d, o), EffText(d, i, o))
             /\ o.at # NoLex => EffType(d, o) = "sc" /\ ValidLex("int", o.at)
             /\ o.sub # NoLex => EffType(d, o) = "grp" /\ ValidLex("boolean", o.sub)
   /\ DOMAIN inst.atts = AttNames(S)
@@ -258,7 +291,8 @@ ValidInstance(S, inst) ==
 ---------------------------------------------------------------------------
 (* Flattening to numbered nodes in document order (element, its attributes, its children). *)
 (* A node is [par, k, s, i, j, lx]:  k is the XDM kind of spec/XDM.tla ("ea" "eb" "xa" "xc" *)
-(* "t") or "xx" for an xsi:* attribute; (s, i, j) says where the node comes from:          *)
+(* "t"), "em" for an element m (substitution group member) or "xx" for an xsi:* attribute; *)
+(* (s, i, j) says where the node comes from:          *)
 (*   "root" | "ratt_a" "ratt_c" (root attributes; dflt = TRUE when added by the PSVI)      *)
 (*   "kid" i j | "xnil" i j | "xtype" i j | "katt" i j (attribute a of an sc element)      *)
 (*   "ktext" i j | "sub" i j (the b inside a grp) | "subtext" i j                          *)
@@ -274,7 +308,7 @@ RootAtts(S, inst) ==   \* a before c; absent attributes with a default are PSVI 
 
 (* nodes of occurrence j of kid i; `at` is the id the element node will get *)
 OccNodes(d, i, j, o, at) ==
-  LET ek   == IF KidName(i) = "a" THEN "ea" ELSE "eb"
+  LET ek   == IF o.mem THEN "em" ELSE IF KidName(i) = "a" THEN "ea" ELSE "eb"
       el   == <<Node(1, ek, "kid", i, j, o.lx, FALSE)>>
       xa   == (IF o.nil THEN <<Node(at, "xx", "xnil", i, j, LTrue, FALSE)>> ELSE <<>>)
               \o (IF o.xt # "none" THEN <<Node(at, "xx", "xtype", i, j, <<o.xt>>, FALSE)>> ELSE <<>>)
@@ -302,7 +336,7 @@ Flatten(S, inst) ==
 (* tv: typed value (sequence) or <<"#novalue">> for element-only content (FOTY0012)        *)
 NoValue == <<[t |-> "#novalue"]>>
 Ann(ty, nilled, tv) == [ty |-> ty, nilled |-> nilled, tv |-> tv]
-IsTypedKind(k) == k \in {"ea", "eb", "xa", "xc"}
+IsTypedKind(k) == k \in {"ea", "eb", "em", "xa", "xc"}
 
 AnnotNode(S, inst, nd) ==
   CASE nd.s = "root" -> Ann("root", FALSE, NoValue)
@@ -314,7 +348,7 @@ AnnotNode(S, inst, nd) ==
              T == EffType(d, o)
          IN IF T = "grp" THEN Ann(T, FALSE, NoValue)
             ELSE IF o.nil THEN Ann(T, TRUE, <<>>)              \* XDM 6.2.2: nilled => typed value ()
-            ELSE Ann(T, FALSE, TypedValue(T, EffText(d, nd.i, o)))
+            ELSE Ann(T, FALSE, TypedValueS(S, T, EffText(d, nd.i, o)))
     [] nd.s = "katt" -> Ann("int", FALSE, TypedValue("int", nd.lx))
     [] nd.s = "sub"  -> Ann("boolean", FALSE, TypedValue("boolean", nd.lx))
     [] OTHER -> Ann("-", FALSE, NoValue)                       \* text nodes, xsi:* attributes: not judged
@@ -335,8 +369,8 @@ UntypedAnnot(S, inst) == LET f == Flatten(S, inst) IN [n \in 1..Len(f) |-> Untyp
 
 (* derives-from: `instance of element(_, Q)` / `attribute(_, Q)` (nilled elements need Q?) *)
 QueryTypes == {"short", "int", "long", "integer", "decimal", "string", "date", "boolean",
-               "small", "ilist", "u", "sc", "grp", "anyAtomicType", "anySimpleType", "anyType"}
-InstanceOf(a, Q, optional) == a.ty \in AllTypes /\ Q \in Chain(a.ty) /\ (a.nilled => optional)
+               "small", "ilist", "u", "ud", "v", "sc", "grp", "anyAtomicType", "anySimpleType", "anyType"}
+InstanceOf(S, a, Q, optional) == a.ty \in AllTypes /\ Q \in ChainS(S, a.ty) /\ (a.nilled => optional)
 
 ---------------------------------------------------------------------------
 (* Probes: what arithmetic / comparison must give when they use the typed value.          *)
@@ -383,7 +417,9 @@ LtDate(tv) ==
 (* the default values written into the schema document (rendered by the binding) *)
 SchemaDefaults(S) ==
   [kids |-> [p \in 1..Len(S.kids) |-> IF S.kids[p].dv THEN DefaultLex(S.kids[p].ty, p) ELSE NoLex],
-   atts |-> {<<d.nm, IF d.use = "dflt" THEN DefaultLex(d.ty, 1) ELSE NoLex>> : d \in S.atts}]
+   atts |-> {<<d.nm, IF d.use = "dflt" THEN DefaultLex(d.ty, 1) ELSE NoLex>> : d \in S.atts},
+   vbase |-> VBase(S),                                                  \* base type of the global type v
+   sgm  |-> [p \in 1..Len(S.kids) |-> IF S.kids[p].sg THEN SgMember(S.kids[p].ty) ELSE "none"]]
 
 (* Everything the binding compares for one (schema, instance) pair, printed once by TLC *)
 Vec(S, inst) ==
@@ -394,8 +430,8 @@ Vec(S, inst) ==
       sdef    |-> SchemaDefaults(S),
       typed   |-> A,
       untyped |-> UntypedAnnot(S, inst),
-      iof     |-> [n \in 1..Len(f) |-> IF judged(n) THEN {Q \in QueryTypes : InstanceOf(A[n], Q, FALSE)} ELSE {}],
-      iofopt  |-> [n \in 1..Len(f) |-> IF judged(n) THEN {Q \in QueryTypes : InstanceOf(A[n], Q, TRUE)} ELSE {}],
+      iof     |-> [n \in 1..Len(f) |-> IF judged(n) THEN {Q \in QueryTypes : InstanceOf(S, A[n], Q, FALSE)} ELSE {}],
+      iofopt  |-> [n \in 1..Len(f) |-> IF judged(n) THEN {Q \in QueryTypes : InstanceOf(S, A[n], Q, TRUE)} ELSE {}],
       plus1   |-> [n \in 1..Len(f) |-> IF judged(n) THEN Plus1(A[n].tv) ELSE RK("na")],
       eq7     |-> [n \in 1..Len(f) |-> IF judged(n) THEN Eq7(A[n].tv) ELSE RK("na")],
       ltdate  |-> [n \in 1..Len(f) |-> IF judged(n) THEN LtDate(A[n].tv) ELSE RK("na")]]
@@ -403,14 +439,16 @@ Vec(S, inst) ==
 ---------------------------------------------------------------------------
 (* Laws of the definitions, evaluated by TLC for every schema / instance of the universe *)
 AllLex(T) == {LexSeq(T)[i] : i \in 1..Len(LexSeq(T))}
-LawLexValid == \A T \in SimpleTypes \ {"short", "long"} : \A l \in AllLex(T) : ValidLex(T, l)
+LawLexValid == /\ \A T \in SimpleTypes \ {"short", "long"} : \A l \in AllLex(T) : ValidLex(T, l)
+               /\ \A T \in SgHeads : SgMember(T) # T /\ T \in Chain(SgMember(T))      \* the member's type derives from the head's
+               /\ \A T \in SgHeads : \A l \in AllLex(SgMember(T)) : ValidLex(T, l)   \* ... so its lexicals are the head's too
 LawChain ==    \* derives-from is reflexive, transitive, rooted in anyType; a restriction keeps the class
-  /\ \A T \in AllTypes : T \in Chain(T) /\ "anyType" \in Chain(T)
-  /\ \A T \in AllTypes : \A Q \in Chain(T) : Chain(Q) \subseteq Chain(T)
+  /\ \A T \in AllTypes \ {"v"} : T \in Chain(T) /\ "anyType" \in Chain(T)
+  /\ \A T \in AllTypes \ {"v"} : \A Q \in Chain(T) : Chain(Q) \subseteq Chain(T)
   /\ \A T \in SimpleTypes : AtomClass(T) \in Chain(T)
 LawCollapse == \A T \in SimpleTypes \ {"short", "long"} : \A l \in AllLex(T) :
                   /\ Collapse(Collapse(l)) = Collapse(l)
-                  /\ T # "string" /\ T # "u" => TypedValue(T, Collapse(l)) = TypedValue(T, l)
+                  /\ T \notin {"string", "u", "ud"} => TypedValue(T, Collapse(l)) = TypedValue(T, l)
 (* a value of a derived type is a value of the base: typed value under xsi:type = under the declaration *)
 LawRestriction == \A l \in AllLex("small") : /\ TypedValue("small", l) = TypedValue("int", l)
                                           /\ ValidLex("int", l)
@@ -421,7 +459,7 @@ PairLaws(S, inst) ==
       A == Annot(S, inst)
   IN /\ ValidInstance(S, inst)
      /\ f[1].par = 0 /\ \A n \in 2..Len(f) : f[n].par \in 1..(n-1)       \* preorder numbering
-     /\ \A n \in 1..Len(f) : f[n].k \in {"xa", "xc", "xx"} => f[f[n].par].k \in {"ea", "eb"}
+     /\ \A n \in 1..Len(f) : f[n].k \in {"xa", "xc", "xx"} => f[f[n].par].k \in {"ea", "eb", "em"}
      \* annotation = declaration: every typed node carries its declared (or xsi:type) type,
      \* and the typed value is a value of that type's class
      /\ \A n \in 1..Len(f) : IsTypedKind(f[n].k) =>
@@ -431,8 +469,13 @@ PairLaws(S, inst) ==
                  IF A[n].nilled THEN A[n].tv = <<>>
                  ELSE CASE A[n].ty = "ilist" -> \A x \in 1..Len(A[n].tv) : A[n].tv[x].t = "int"
                         [] A[n].ty = "u"     -> Len(A[n].tv) = 1 /\ A[n].tv[1].t \in {"int", "string"}
+                        [] A[n].ty = "ud"    -> Len(A[n].tv) = 1 /\ A[n].tv[1].t \in {"decimal", "string"}
+                        [] A[n].ty = "v"     -> Len(A[n].tv) = 1 /\ A[n].tv[1].t = AtomClass(VBase(S))
                         [] OTHER -> Len(A[n].tv) = 1 /\ A[n].tv[1].t = AtomClass(ContentType(A[n].ty))
      \* instance-of holds exactly along the chain
      /\ \A n \in 1..Len(f) : IsTypedKind(f[n].k) =>
-           \A Q \in QueryTypes : InstanceOf(A[n], Q, TRUE) <=> Q \in Chain(A[n].ty)
+           \A Q \in QueryTypes : InstanceOf(S, A[n], Q, TRUE) <=> Q \in ChainS(S, A[n].ty)
+     \* an <m> element carries the member's type, which derives from the head's: the head's type is in its chain
+     /\ \A n \in 1..Len(f) : f[n].k = "em" =>
+           A[n].ty = SgMember(S.kids[f[n].i].ty) /\ S.kids[f[n].i].ty \in Chain(A[n].ty)
 =============================================================================
